@@ -161,7 +161,7 @@ def run_c03(pid):
             off += ln
             s0 += f["bs"]
         items.append({"id": g["id"], "bytes": g["bytes"], "pcm": g["pcm"], "bps": p["bps"], "metaLen": g["metaLen"], "frameLens": g["frameLens"],
-                      "layout": lay, "valid": True, "md5mode": p["md5"], "subset": p["subset"] and not p["variable"], "class": "valid",
+                      "layout": lay, "valid": True, "md5mode": p["md5"], "subset": p["subset"], "class": "valid",
                       "plan": {k: p[k] for k in p if k != "pcm"}})
     items.sort(key=lambda x: x["id"])
     # syntactic alternatives actually covered (non-vacuity)
